@@ -143,7 +143,7 @@ def synthetic(ck, rows, C):
         one = build_code(rows, [(JMP, [('to', per + i)]) for i in range(per)] + [(NOP, [])] * per + [(RET, [])])
         add('jump:labels-total=%dx%d' % (per, nf),
             Mod(1, 0, [b'f%d' % i for i in range(nf)], [(i, 0, i * len(one), len(one), 0, 0) for i in range(nf)], one * nf))
-    # strings: every special byte, referenced by PUSH_STR or not; lengths around the assembler's 4096-byte buffer
+    # strings: every special byte, referenced by PUSH_STR or not; lengths around the assembler's former 4096-byte buffer (now sized from the directive)
     specials = [b'', b'plain', b'a b', b'x\ny', b'x\ty', b'x\\y', b'x"y', b'x;y', b'x#y', b'x\x00y', b'x\ry', b'x\r', b' lead', b'trail ',
                 b'\xc3\xa9\xff\x80', b'\\', b'"', b'\\n', b'\n', b';', b'#', b'a\nRET', b'a\n  RET', b'a\nL0:', b'\\;', b'a\\', b'%s%d', b"'",
                 b'\x01\x7f', b'\x0b\x0c', b'x' * 4094, b'x' * 4095, b'x' * 4096, b'y' * 5000, b'"' * 2047, b'"' * 2048, b'\n' * 4095]
@@ -461,7 +461,7 @@ def model_cmd(ref):
     return ['bash', '-c', 'ulimit -s unlimited 2>/dev/null || ulimit -s 1000000; exec "$0"', ref]
 
 
-CAUSES = ['str_len', 'str_bytes', 'distinct', 'fn_fields', 'fn_names', 'layout', 'code_bytes', 'code_decodes', 'code_patches', 'code_f64', 'entry']
+CAUSES = ['str_bytes', 'distinct', 'fn_fields', 'fn_names', 'layout', 'code_bytes', 'code_decodes', 'code_patches', 'code_f64', 'entry']
 
 
 def tiles(m):
